@@ -5,14 +5,6 @@ pipestance looks like after any number of crash / restart / partial resets — t
 same as after an uninterrupted run (C05 `restart_completes_same`). -/
 namespace Martian.Sched
 
-/-- no failure event, and the chunk structure of a fork is not redefined while mrp
-re-attaches (the model keeps `nchunks` across `restart`; `Fork.restoreChunks`) -/
-def Ev.benign (s : State) (e : Ev) : Bool :=
-  !e.failing &&
-  match e with
-  | .mkchunks _ _ _ => !(s.phase == .loading && s.inc != 0)
-  | _ => true
-
 /-- the completion chain, on disk -/
 structure ChainInv (s : State) : Prop where
   c1 : ∀ n f, s.kind n ≠ .pipeline → (s.m ⟨n, f, .fork⟩).disk.has .complete = true →
@@ -62,14 +54,12 @@ theorem complete_not_resettable {s : State} (hobj : ObjsInv s) (hrole : RoleInv 
     unfold resetOk at hro
     simp only [hfull, Bool.false_eq_true, if_false, Bool.and_eq_true, Bool.or_eq_true,
       beq_iff_eq, hdst] at hro
-    rcases hro.2.2 with ((h | h) | h) | h
+    rcases hro.2.2 with ((h | h) | ⟨h, _⟩) | h
     · cases h
     · cases h
     · cases h
-    · cases hjo : jobObj (s.kind o.n) o.r
-      · have := ((hrole o).nj hjo).2.2.1
-        simp only [SSet.has] at this; rw [this] at h; cases h
-      · have := ((hobj o).jj hjo h).2.1; rw [hc] at this; cases this
+    · -- the branch of `restartQueuedLocal` added by 23063ab: complete ⇒ only the sentinel goes
+      simp at h
 
 theorem benign_nf {s : State} {e : Ev} (h : e.benign s = true) : e.failing = false := by
   simp only [Ev.benign, Bool.and_eq_true, Bool.not_eq_true'] at h; exact h.1
